@@ -42,11 +42,17 @@ class Orphan:
         for p in (self.done, self.failed):
             if p.exists():
                 p.unlink()
-        if start == "run" or outcome == "killed":
+        if start in ("run", "spawned") or outcome == "killed":
             # (sh stays the parent of the sleeper and reaps it at once when it dies)
             self.sh = subprocess.Popen(["sh", "-c", "sleep 600 >/dev/null 2>&1 & echo $!; wait"], stdout=subprocess.PIPE, text=True)
             self.pid = int(self.sh.stdout.readline())
-            self.pidf.write_text(json.dumps({"type": "local", "pid": self.pid}))
+            if start == "spawned":
+                # another scheduler is launching the job: the process exists, its pid file has not been opened yet
+                self.jpc = "spawned"
+                if self.pidf.exists():
+                    self.pidf.unlink()
+            else:
+                self.pidf.write_text(json.dumps({"type": "local", "pid": self.pid}))
             if stopped:
                 # the orphan is suspended (SIGSTOP, a debugger, a frozen cgroup): it exists, it holds what it holds, it will go on
                 os.kill(self.pid, signal.SIGSTOP)
@@ -65,7 +71,13 @@ class Orphan:
                 self.jpc = "gone"
 
     def step(self, s):
-        if s == "JMark":
+        if s == "LOpen":
+            open(self.pidf, "w").close()
+            self.jpc = "pidopen"
+        elif s == "LWrite":
+            self.pidf.write_text(json.dumps({"type": "local", "pid": self.pid}))
+            self.jpc = "run"
+        elif s == "JMark":
             if self.outcome == "ok":
                 self.done.touch()
             else:
@@ -81,8 +93,8 @@ class Orphan:
 
     def finish(self):
         if self.jpc != "gone" and self.sh:
-            todo = JSTEPS[self.outcome]
-            k = {"run": 0, "marked": 1, "unpid": 2}[self.jpc]
+            todo = ["LOpen", "LWrite"] + JSTEPS[self.outcome]
+            k = {"spawned": 0, "pidopen": 1, "run": 2, "marked": 3, "unpid": 4}[self.jpc]
             for s in todo[k:]:
                 self.step(s)
 
@@ -104,6 +116,7 @@ class Gate:
         self.active = False
         self.lock = threading.Lock()
         self.accesses = []
+        self.sawempty = False
         self.at_start = None            # what the workspace looked like when aio_start was entered
         self.crash = None
 
@@ -116,6 +129,11 @@ class Gate:
             if self.plan:
                 self.plan.pop(0)
             self.accesses.append(kind)
+            if kind == "pidread":      # (os.path, not pathlib: the methods of Path are the ones being intercepted)
+                try:
+                    self.sawempty = self.sawempty or os.path.getsize(str(self.o.pidf)) == 0
+                except OSError:
+                    pass
             if kind == "waited":
                 # the wait returns once the orphan has left: whatever it still had to do happens before
                 for s in [x for x in self.plan if x is not None]:
@@ -199,7 +217,7 @@ class Gate:
 
         async def aio_start(self, job):
             g.active = False
-            g.at_start = {"jpc": g.o.jpc, "done": os.path.exists(g.o.done)}
+            g.at_start = {"jpc": g.o.jpc, "done": os.path.exists(g.o.done), "sawempty": g.sawempty}
             g.flush()
             return await o_start(self, job)
 
@@ -310,18 +328,18 @@ def one(case):
 
 def plan_of(hist):
     """behaviour of the specification -> plan (J steps, None for each access of the scheduler)"""
-    return [s if s.startswith("J") else None for s in hist[1:]]
+    return [s if s[0] in "JL" else None for s in hist[1:]]
 
 
 def labels_of(hist):
-    return [s for s in hist[1:] if not s.startswith("J")]
+    return [s for s in hist[1:] if s[0] not in "JL"]
 
 
 def judge(obs, want=None):
     """-> list of (clause, text): the invariants of XpmAdopt on the real observables"""
     c = obs["case"]
     bad = []
-    what = (f"orphan ending '{c['out']}' ({('suspended' if c.get('stopped') else 'still running') if c['start'] == 'run' else 'already ended'} "
+    what = (f"orphan ending '{c['out']}' ({('suspended' if c.get('stopped') else 'still running') if c['start'] == 'run' else 'being launched by another scheduler' if c['start'] == 'spawned' else 'already ended'} "
             f"when the experiment is run again), its steps placed {describe(c['plan'])}")
     if obs.get("hang"):
         bad.append(("hang", f"{what}: the experiment never ends"))
@@ -330,7 +348,7 @@ def judge(obs, want=None):
     if obs["launched"] and obs["at_start"]:
         if obs["at_start"]["done"]:
             bad.append(("NoRelaunchOfSuccess", f"{what}: the job is launched again although its success marker was there"))
-        if obs["at_start"]["jpc"] == "run":
+        if obs["at_start"]["jpc"] == "run" and not obs["at_start"].get("sawempty") and c["start"] != "spawned":
             bad.append(("NoRelaunchOfRunning", f"{what}: the job is launched again while its process was running its body"))
     if not obs["launched"] and not bad:
         if obs["state"] == "DONE" and c["out"] != "ok":
